@@ -80,7 +80,9 @@ var paths = []string{"", "/", "/publicKey", "/publicKey/0", "/publicKey/0/id", "
 	// names, and docs[0] has members with exactly these names
 	"/notes/../publicKey", "/notes/../service/0", "/./service", "/notes/.//publicKey/0",
 	// the URI fragment representation of a pointer (RFC 6901 section 6) is not the representation RFC 6902 uses
-	"#/publicKey/0", "#/service/0/serviceEndpoint", "#/publicKey", "#", "#/zz"}
+	"#/publicKey/0", "#/service/0/serviceEndpoint", "#/publicKey", "#", "#/zz",
+	// sibling members whose names contain an escaped slash: after unescaping the whole string they read like a protected pointer
+	"/publicKey~10", "/service~10~1serviceEndpoint", "/publicKey~1"}
 
 // (the last value is a whole document of its own: written at the root or anywhere else it must not bring keys or services with it)
 var values = []string{`{"x":1}`, `"s"`, `[{"id":"evil","type":"T"}]`,
@@ -289,7 +291,7 @@ func Worker(args []string) {
 }
 
 func Run(r *core.Run) {
-	r.Rule = "3 documents x RFC 6902 patch lists over 6 operation kinds x 54 path pointers x 54 from pointers x 4 values: all single operations; pairs (copy|move ; any operation at or below that operation's target or source, or moving/copying from there) in quick, all ordered pairs in thorough; " +
+	r.Rule = "3 documents x RFC 6902 patch lists over 6 operation kinds x 57 path pointers x 57 from pointers x 4 values: all single operations; pairs (copy|move ; any operation at or below that operation's target or source, or moving/copying from there) in quick, all ordered pairs in thorough; " +
 		"oracle: validated and applied => publicKey and service members deep-equal to the input's; distinct = patch lists that validate and apply (counted); non-trivial = the list validates and applies"
 	r.Assumptions = []string{"operations whose from is a token prefix of their path (copy/move into own subtree, in the RFC 6902 library's reading of the pointers) are left to C19 (they can kill the process)",
 		"a panic inside ApplyPatches counts as not applied here (C19 judges it); the enumeration runs in child processes so that a fatal error of the code under test costs one item, not the check"}
